@@ -12,7 +12,7 @@ import re
 
 TOK = re.compile(
     r"""\s*(?:
-      (0[xX][0-9a-fA-F]+|\d+)(?![\w.])     # 1 integer
+      ((?:0[xX][0-9a-fA-F]+|\d+)(?:[uU](?:ll|LL|l|L)?|(?:ll|LL|l|L)[uU]?)?)(?![\w.])     # 1 integer (with C suffix)
     | ([A-Za-z_]\w*)                        # 2 identifier
     | "((?:[^"\\]|\\.)*)"                   # 3 string
     | '((?:[^'\\]|\\.))'                    # 4 char
@@ -32,6 +32,53 @@ class ILSyntaxError(Exception):
     pass
 
 
+class CNum(int):
+    """An integer constant of the emitted C text with the type C11 6.4.4.1 gives it: the plugin's C compiler computes
+    `-0x80000000` in unsigned int (the result is +0x80000000), `-2147483648` in long."""
+
+    ctype = (True, 32)
+
+    @staticmethod
+    def of(text):
+        m = re.match(r"^(0[xX][0-9a-fA-F]+|\d+)(.*)$", text)
+        digits, suf = m.group(1), m.group(2).lower()
+        hexa = digits[:2].lower() == "0x"
+        octal = not hexa and len(digits) > 1 and digits[0] == "0"
+        v = int(digits, 16 if hexa else (8 if octal else 10))
+        uns, lng = "u" in suf, "l" in suf
+        cands = []
+        if uns:
+            cands = ([] if lng else [(False, 32)]) + [(False, 64)]
+        else:
+            if not lng:
+                cands.append((True, 32))
+                if hexa or octal:
+                    cands.append((False, 32))
+            cands.append((True, 64))
+            cands.append((False, 64))  # decimal: no signed type fits; compilers make it unsigned long long (with a warning)
+        for sg, w in cands:
+            if v < (1 << (w - 1 if sg else w)):
+                r = CNum(v)
+                r.ctype = (sg, w)
+                return r
+        # no C integer type holds it (clang rejects the text, gcc warns): kept with an extended type so that the value
+        # checks can go on; check_wellformed reports it
+        r = CNum(v)
+        r.ctype = (False, 128)
+        return r
+
+    def neg(self):
+        sg, w = self.ctype
+        if sg:
+            if int(self) == 1 << (w - 1):
+                raise ILSyntaxError("negation overflows")
+            r = CNum(-int(self))
+        else:
+            r = CNum((-int(self)) & ((1 << w) - 1))  # unsigned arithmetic wraps
+        r.ctype = (sg, w)
+        return r
+
+
 def tokenize(s):
     out = []
     i = 0
@@ -44,7 +91,7 @@ def tokenize(s):
             raise ILSyntaxError("bad token at %r" % s[i : i + 30])
         i = m.end()
         if m.group(1) is not None:
-            out.append(("num", int(m.group(1), 0)))
+            out.append(("num", CNum.of(m.group(1))))
         elif m.group(2) is not None:
             out.append(("id", m.group(2)))
         elif m.group(3) is not None:
@@ -81,7 +128,7 @@ class _P:
             k2, v2 = self.next()
             if k2 != "num":
                 raise ILSyntaxError("unary minus on non-literal")
-            return ("num", -v2)
+            return ("num", v2.neg() if isinstance(v2, CNum) else -v2)
         if (k, v) == ("p", "&"):
             self.next()
             k2, v2 = self.next()
@@ -319,6 +366,9 @@ def check_wellformed(b, allow_free=("bundle", "hi", "pkt")):
             elif k == "ccast":
                 if sub[1] not in CAST_TYPES:
                     errs.append("%s: C cast to unknown type %r" % (where, sub[1]))
+            elif k == "num":
+                if isinstance(sub[1], CNum) and sub[1].ctype[1] > 64:
+                    errs.append("%s: an integer constant does not fit any C integer type" % where)
             elif k == "arrow":
                 if sub[1] not in declared and sub[1] not in free_ok:
                     errs.append("%s: %s-> used but %s is not declared" % (where, sub[1], sub[1]))
